@@ -552,15 +552,15 @@ func (m *Machine) intercept(fn *ssa.Function) (func([]Value) Value, bool) {
 			return Iface{T: types.NewPointer(et), V: Ptr{Obj: obj}}
 		}, true
 	case "time.Now":
+		// a fixed instant (wall = 0, ext = seconds since year 1, no monotonic reading): harnesses that need an
+		// arbitrary clock install Config.Time (E3); everything else only stamps deadlines and creation times
 		return func(args []Value) Value {
 			tt := fn.Signature.Results().At(0).Type()
 			v := m.zeroValue(tt).(Struct)
 			st := tt.Underlying().(*types.Struct)
 			for i := 0; i < st.NumFields(); i++ {
 				if st.Field(i).Name() == "ext" {
-					t := c.Var(m.freshName("now"), 64)
-					m.pc = append(m.pc, c.Cmp("bvsle", c.Const(64, 0), t))
-					v.F[i] = Int{t}
+					v.F[i] = Int{c.Const(64, 63900000000)}
 				}
 			}
 			return v
